@@ -90,6 +90,12 @@ def rand_elems(rng, ek, n, B, depth=0):
         return [seq_term(ek[0], rand_elems(rng, ek[1], rng.randrange(0, 4), B)) for _ in range(n)]
     small = rng.random() < 0.6
     out = []
+    if ek in ('p1', 'p2', 'p3'):
+        for _ in range(n):
+            tid, b = rand_plain(rng, int(ek[1]))
+            if small: b = bytes(rng.choice([0, 1, 0xff]) if j in (0, len(b) - 1) else 0 for j in range(len(b)))
+            out.append(f'p{tid}:{b.hex()}')
+        return out
     for _ in range(n):
         if small and ek == 'i': out.append(ti(rng.choice([0, 1, 2, -1, 1 << 32, I64_MIN, I64_MAX])))
         elif small and ek == 's': out.append(ts(rng.choice([b'', b'a', b'ab', b'a\xff', b'b'])))
@@ -110,7 +116,8 @@ def variant(rng, elems, ek, B):
 
 def rand_seq_pair(rng, B, n=2):
     r = rng.random()
-    if r < 0.7: ek = rng.choice('ifs')
+    if r < 0.62: ek = rng.choice('ifs')
+    elif r < 0.7: ek = rng.choice(['p1', 'p2', 'p3'])      # plain structs of one type (non-zero size): memcmp per element
     else: ek = (rng.choice('AL'), rng.choice('ifs'))
     base = rand_elems(rng, ek, rng.randrange(0, 6), B)
     out = []
@@ -120,9 +127,13 @@ def rand_seq_pair(rng, B, n=2):
 
 def rand_tuple_pair(rng, B, n=2):
     """heterogeneous Tuples whose positions agree in kind"""
-    kinds = [rng.choice(['i', 'f', 's', 'A', 'T', 'R']) for _ in range(rng.randrange(0, 5))]
-    def one(k):
-        if k in 'ifst': return rand_scalar(rng, k, B)
+    kinds = [rng.choice(['i', 'f', 's', 'A', 'T', 'R', 't', 'p']) for _ in range(rng.randrange(0, 5))]
+    ptid = rng.choice([1, 2, 3])
+    tnames = rng.sample(TYPE_NAMES, 12)      # a Type is ONE object: within one Tuple each name at most once (else: the same object twice)
+    def one(k, j=0):
+        if k == 't': return tt(tnames[2 * j + rng.randrange(2)])
+        if k == 'p': tid, b = rand_plain(rng, ptid); return f'p{tid}:{b.hex()}'
+        if k in 'ifs': return rand_scalar(rng, k, B)
         if k == 'A': return rand_seq_pair(rng, B, 1)[0]
         if k == 'T': return seq_term('T', [rand_scalar(rng, rng.choice('is'), B) for _ in range(rng.randrange(0, 3))])
         return rand_tree_pair(rng, B, 1)[0]
@@ -134,9 +145,9 @@ def rand_tuple_pair(rng, B, n=2):
             cur = []
             for j, k in enumerate(kinds):
                 if base is not None and rng.random() < 0.6: cur.append(base[j])
-                elif k in 'ifst': cur.append(one(k))
+                elif k in 'ifstp': cur.append(one(k, j))
                 elif base is not None: cur.append(base[j])
-                else: cur.append(one(k))
+                else: cur.append(one(k, j))
             if base is None: base = cur
         else:
             cur = list(base)
@@ -291,6 +302,49 @@ def alias_left_case(rng):
                 right[i] = f'*{who[i]}'; used.add(who[i])               # the same object, once, in the right operand too
     return f'lcmp {left} {seq_term(rk, right)}'
 
+def same_value(t1, t2):
+    """do two element terms of one kind denote equal values? (terms are canonical except for the two zeros of Float)"""
+    if t1 == t2: return True
+    zeros = ('f0000000000000000', 'f8000000000000000')
+    return t1 in zeros and t2 in zeros
+
+def alias_right_clean_case(rng):
+    """lcmp <fresh sequence> <Tuple with a repeated object>, decided BEFORE the walk along the right operand leaves the second
+    occurrence (`Obj.walkClean`): the left operand is a prefix of the content that ends at or before the first repeated slot
+    p (or right after it, when the right operand has further slots), or differs from the content at a position <= p.
+    Optionally one level down: both operands wrapped in Arrays / Lists / Tree values, after equal or before differing siblings."""
+    names = Names()
+    ek = rng.choice(['i', 'i', 'i', 's', 'f', 'A', 'L', 'T'])
+    n = rng.randrange(2, 7)
+    right, content, who, _ = shared_tuple(rng, names, ek, n)
+    p = next(i for i in range(n) if who[i] in who[:i])                  # the first slot that repeats an earlier object
+    r = rng.random()
+    if r < 0.35: left = content[:rng.randrange(0, p + 1)]                # ends before slot p is compared / at slot p
+    elif r < 0.5 and p + 1 < n: left = content[:p + 1]                   # ends right after the step from slot p; obj goes on
+    else:
+        i = rng.randrange(0, p + 1)
+        for _ in range(20):
+            e = small_elem(rng, ek)
+            if not same_value(e, content[i]): break
+        else: return f'lcmp {seq_term("T", [])} {right}'
+        left = content[:i] + [e] + content[i + 1:]
+        q = rng.random()
+        if q < 0.3: left = left[:i + 1]
+        elif q < 0.5: left = left + [small_elem(rng, ek)]
+    lk = 'T' if ek == 'T' else rng.choice('TTAL')
+    lt = seq_term(lk, left)
+    if rng.random() < 0.3:
+        sk = 'i'
+        sib = [seq_term('T', [small_elem(rng, sk) for _ in range(rng.randrange(0, 3))]) for _ in range(rng.randrange(0, 3))]
+        pos = rng.randrange(0, len(sib) + 1)
+        if lk != 'T': lt = seq_term('T', left)                           # element type Tuple on both sides
+        if rng.random() < 0.7:
+            return f'lcmp {seq_term(rng.choice("ALT"), sib[:pos] + [lt] + sib[pos:])} {seq_term(rng.choice("AL"), sib[:pos] + [right] + sib[pos:])}'
+        keys = rng.sample([0, 1, 2, 3, 1 << 32], len(sib) + 1)
+        return (f'lcmp {tree_term(list(zip(map(ti, keys), sib[:pos] + [lt] + sib[pos:])))} '
+                f'{tree_term(list(zip(map(ti, keys), sib[:pos] + [right] + sib[pos:])))}')
+    return f'lcmp {lt} {right}'
+
 def alias_nested_case(rng):
     """the Tuple with a repeated object one level down in the left operand; or the same inner Tuple in two slots"""
     names = Names()
@@ -362,11 +416,20 @@ def alias_lines(rng, B, n):
     out = []
     for _ in range(n):
         r = rng.random()
-        if r < 0.55: out.append(alias_left_case(rng))
-        elif r < 0.72: out.append(alias_nested_case(rng))
-        elif r < 0.86: out.append(alias_between_case(rng))
+        if r < 0.45: out.append(alias_left_case(rng))
+        elif r < 0.60: out.append(alias_right_clean_case(rng))
+        elif r < 0.74: out.append(alias_nested_case(rng))
+        elif r < 0.87: out.append(alias_between_case(rng))
         else: out.append(alias_self_case(rng, B))
-    return out
+    return [with_class(rng, l) for l in out]
+
+def with_class(rng, line):
+    """the allocation class of the operand objects: `cmp` = new_raw, `cmp.n` = new_root (collector-managed), `cmp.s` = stack class"""
+    r = rng.random()
+    if r < 0.72: return line
+    op, rest = line.split(' ', 1)
+    if op not in ('cmp', 'lcmp', 'tri'): return line
+    return f'{op}.{"n" if r < 0.86 else "s"} {rest}'
 
 def chunks(prefix, lines, size):
     return [Case(f'{prefix}{i // size}', lines[i:i + size]) for i in range(0, len(lines), size)]
@@ -395,7 +458,9 @@ class C09(Spec):
                   'and iterator-step texts equal the texts the model mirrors; C09_discipline_as_modelled — Array_Cmp/List_Cmp advance along self through their iterators, Tuple_Cmp by slot index '
                   '(read off the source on every run). ALIASING (objects with identity, objCmpF): C09_tuple_walk_content_partial — under the source discipline cmp(self, obj) ends within '
                   'size(self) steps and equals the comparison of the CONTENTS for every self (any object in any number of Tuple slots at any depth, shared with obj, or self = obj), '
-                  'provided no Tuple inside obj — also as an element of an Array / List or a value of a Tree (Obj.cont / Obj.tree: the copy made by Tuple_Assign references the source\'s objects) — holds an object twice; C09_obj — hence a lawful order, 0 exactly on equal content, on such objects; '
+                  'provided the walk is CLEAN (Obj.walkClean ops self, decidable: the walk never steps from a slot of a Tuple inside obj — also inside an element of an Array / List or a value of a Tree, Obj.cont / Obj.tree — whose object already sits in an earlier slot, except for the step after which self has ended and obj has not; '
+                  'the comparisons decided before that are proved although obj holds an object twice: C09_walk_clean_beyond_nodup with the audit\'s C outputs); C09_walk_clean_of_nodup / C09_tuple_walk_content_nodup — the earlier hypothesis `no Tuple inside obj holds an object twice` is a special case; '
+                  'C09_obj — hence a lawful order, 0 exactly on equal content, on objects without a repeated object; C09_obj_pair_clean — antisymmetry and 0 iff equal content for any two objects that are clean against each other; '
                   'C09_tuple_walk_content_refuted — known finding KF-C09-tuple-dup-obj: a Tuple holding an object twice as the RIGHT operand is walked by identity (Tuple_Iter_Next): '
                   'cmp(x,x)=1, cmp(x,arr)=0 but cmp(arr,x)=1; the same through new(Array, Tuple, x), new(List, Tuple, x), new(Tree, Int, Tuple, k, x); C09_tuple_identity_walk_refuted — the variant of Tuple_Cmp that walks self through Tuple_Iter_Next is not an order: '
                   '-1 against an Array of equal content, +1 against a longer List, and cmp(x,x) has no value for any fuel (never terminates). '
@@ -405,11 +470,13 @@ class C09(Spec):
                   'that the HARDWARE subtracts like that (x86-64 SSE, no flush-to-zero) is trusted and tested on the grid (denormals, signed zeros, infinities, extremes, random bits): the driver runs the bit-level model, the harness the machine. '
                   'Trusted: Lean kernel; the C-expression translator translate/g_cmp.py (machine integer semantics of `-`, casts, signed `<`); '
                   'libc strcmp/memcmp return the sign of the first differing unsigned byte (C standard; tested); harness/driver comparison is testing. '
-                  'Partial for aliasing: proved for every self and every obj none of whose Tuples holds an object twice; the rest is the known finding (refuted theorem). '
+                  'Partial for aliasing: proved for every self and every obj on which the walk never leaves a repeated slot of a Tuple in obj (walkClean: exactly where Tuple_Iter_Next cannot misplace the cursor, plus the harmless last step); the rest is the known finding (refuted theorem). '
                   'Not covered: comparisons between values of different kinds (Int with Float, …: c_int/c_float conversions), NaN, Table_Cmp (C10), '
                   'Thread/Range/Slice/Ref/Box/File comparisons, strings with embedded NUL.')
     rule = ('ops: `cmp A B` (sign both ways + six predicates), `tri A B C` (six signs), `keys …` (Tree + Table keyed on the values), `sort …`. '
-            'Array / List elements and Tree values may be Tuples (element type Tuple: the copy references the source\'s objects), heterogeneous slot by slot, shared between the operands; with a repeated object only in the LEFT operand. '
+            'Suffix `.n` / `.s` on cmp / lcmp / tri = allocation class of the operand objects in the harness (new_root = collector-managed; stack class = headers of $I / $S / $F / tuple(…) objects; default new_raw). '
+            'Array / List elements and Tree values may be Tuples (element type Tuple: the copy references the source\'s objects), heterogeneous slot by slot, shared between the operands; Array / List elements may be plain structs of one type of non-zero size; Tuple slots may be plain structs and Type objects (one object per Type: distinct names within a generated Tuple). '
+            'A repeated object in the LEFT operand anywhere; in the RIGHT operand where the walk is clean (decided at or before the first repeated slot, or self ends right after it). '
             'Values: full boundary grids for Int (±2^e±{0,1,2}, e up to 63), Float bits (signed zeros, denormals, 1±ulp, 2^53 neighbours, DBL_MAX, infinities), '
             'strings (prefixes, bytes 0x01/0x7f/0x80/0xff), all built-in type names, plain structs of 0/4/16 bytes (two distinct 4-byte types); '
             'random pairs and triples biased to boundaries and to related values; Array/List/Tuple of scalars and of containers with related contents '
@@ -425,9 +492,10 @@ class C09(Spec):
                     'harness/h_cmp.c + lean/Driver/Cmp.lean (correspondence is testing)',
                     'libc strcmp/memcmp sign convention; the hardware implements IEEE-754 binary64 subtraction and < (correctly rounded in some rounding direction, gradual underflow) — tested')
     assumptions = ('both operands of one kind at every level (Int/Int, Float/Float, String/String, Type/Type, sequence/sequence, Tree/Tree, plain struct/plain struct)',
-                   'no NaN; strings without embedded NUL; Array/List elements of one element type (scalars, Arrays, Lists, Tuples); Tree keys scalar, values scalar or Tuples',
-                   'a Tuple that references one object from two slots is generated inside the LEFT operand only (at top level, as a slot of a Tuple, as an element of an Array / List, as a value of a Tree): inside the right operand it is walked by identity (known finding '
-                   'KF-C09-tuple-dup-obj, root cause F13; witness corpus/kf_c09_tuple_dup.ops, model agrees line by line); Type objects are not put into Tuples',
+                   'no NaN; strings without embedded NUL; Array/List elements of one element type (scalars, Arrays, Lists, Tuples, one plain struct type of non-zero size); Tree keys scalar, values scalar or Tuples; no size-0 struct and no two different struct types inside one comparison of containers (the loop\'s cmp raises TypeError)',
+                   'a Tuple that references one object from two slots is generated inside the LEFT operand anywhere (at top level, as a slot of a Tuple, as an element of an Array / List, as a value of a Tree) and inside the RIGHT operand only where the walk is clean '
+                   '(the comparison is decided before the walk leaves the second occurrence): beyond that the right operand is walked by identity (known finding KF-C09-tuple-dup-obj, root cause F13; witness corpus/kf_c09_tuple_dup.ops, model agrees line by line); '
+                   'the harness computes the territory itself (walk_clean) and labels only failures inside it as the known finding; the same Type twice in a generated Tuple is avoided (one object per Type)',
                    'where a Tuple holds an object twice, all elements of the two sequences compared are of one kind (an identity walk may bring any of them against any other); no object contains itself',
                    'x86-64 SSE double arithmetic (no x87 excess precision, no flush-to-zero)')
 
@@ -519,7 +587,7 @@ class C09(Spec):
                         i = rng.randrange(len(ba)); bb = ba[:i] + bytes([rng.choice([0, 1, 0x7f, 0x80, 0xff])]) + ba[i + 1:]
                 else: tb, bb = rand_plain(rng)
                 lines.append(f'cmp p{ta}:{ba.hex()} p{tb}:{bb.hex()}')
-        cs += chunks('containers', lines, 3000)
+        cs += chunks('containers', [with_class(rng, l) for l in lines], 3000)
         # ---- Tree / Table keyed on boundary values, sort
         n_k = (1500 if quick else 30000) * boost // half
         lines = []
@@ -573,10 +641,10 @@ class C09(Spec):
                'cmp A2 i1 s61 A0', 'cmp A1 i1 R0', 'cmp tNoSuchType tInt', 'tri i1 i2', 'keys i1 s61', 'sort', 'cmp T1 p1:00000000 T0',
                'cmp R1 A0 i1 R0', 'cmp p1:000000 p1:00000000', 'cmp p4: p4:', 'frob i1 i2', 'cmp i-9223372036854775809 i0', 'cmp A1 i1 A1 s61',
                'cmp L1 tInt L0', 'cmp i+1 i1', 'cmp i i1', 'cmp A01 i1 A1 i1', 'cmp A i1', 'cmp A00000000000000000001 i1 A1 i1',
-               'cmp R2 i1 i1 s61 i2 R0', 'cmp R1 i1 A0 R0', 'cmp A1_0 i1 A0', 'cmp A4097 A0', 'cmp fFFF0000000000000 f0000000000000000', 'cmp T2 tInt tInt T0',
+               'cmp R2 i1 i1 s61 i2 R0', 'cmp R1 i1 A0 R0', 'cmp A1_0 i1 A0', 'cmp A4097 A0', 'cmp fFFF0000000000000 f0000000000000000', 'lcmp T0 T2 tInt tInt',
                'keys f7ff8000000000001', 'cmp s6 s61', 'cmp p1:0102030 p1:01020304',
                'cmp *1 i1', 'cmp &1 i1 &1 i2', 'cmp &1 T1 *1 i1', 'cmp &64 i1 *64', 'cmp &1 i1', 'cmp & i1 i2', 'lcmp i1', 'lcmp T1 *1 &1 i1',
-               'cmp &001 i1 *1', 'cmp &1 i1 *01', 'lcmp &1 T2 &1 i1 i2 i3', 'cmp &-1 i1 i2', 'tri &1 i1 *1', 'cmp &1 A1 *1 *1']
+               'cmp &001 i1 *1', 'cmp &1 i1 *01', 'keys.n i1 i2', 'cmp.x i1 i2', 'cmp. i1 i2', 'cmp.ns i1 i2', 'cmp A1 p0: A1 p0:', 'cmp T1 p1:00000000 T1 p2:00000000', 'cmp A2 p1:00000000 p2:00000000 A0', 'lcmp &1 T2 &1 i1 i2 i3', 'cmp &-1 i1 i2', 'tri &1 i1 *1', 'cmp &1 A1 *1 *1']
         cs.append(Case('illformed', bad))
         return cs
 
@@ -597,7 +665,8 @@ class C09(Spec):
         obs = core.lines_with('O ', c_out)
         for op, o in zip(ops, obs):
             w = op.split(' ')
-            key = w[0] + '_' + (w[1][0] if len(w) > 1 and w[1] else '?')
+            key = w[0].split('.')[0] + '_' + (w[1][0] if len(w) > 1 and w[1] else '?')
+            if '.' in w[0]: acc['class_' + w[0].split('.')[1]] = acc.get('class_' + w[0].split('.')[1], 0) + 1
             if '*' in op: acc['ops_with_shared_object'] = acc.get('ops_with_shared_object', 0) + 1
             acc[key] = acc.get(key, 0) + 1
             if o.startswith('O cmp s='):
